@@ -24,7 +24,7 @@ WORDS = ["aa", "bbb", "cccc", "d", "eeeeee"]
 def bounded(tier, seed):
     rnd = random.Random(seed)
     viol, evals, distinct = [], 0, set()
-    widths = (1, 3, 5, 8, 12, 20) if tier == "quick" else tuple(range(1, 21))
+    widths = (1, 3, 5, 8, 12, 20, 88) if tier == "quick" else tuple(range(1, 21)) + (40, 88)
     n = 60 if tier == "quick" else 600
     for i in range(n):
         toks = [rnd.choice(WORDS + CONSTRUCTS) for _ in range(rnd.choice((2, 3, 5, 7)))]
@@ -88,8 +88,8 @@ def bounded(tier, seed):
     return {"evaluations": evals, "distinct_nontrivial": len(distinct), "violations": viol,
             "samples": [{"text": " ".join([WORDS[0], CONSTRUCTS[0], WORDS[2], CONSTRUCTS[4]])}],
             "rule": "each of the 4 single-tag patterns on opener + every body of <= 3 symbols over a 13-symbol alphabet + closer: the match ends at "
-                    "the first closer; seeded top-level paragraphs of 2-7 tokens mixing 5 words with 17 atomic constructs (tags whose body holds their own delimiter characters) (incl. multi-backtick code spans holding backticks) x widths (quick {1,3,5,8,12,20}, "
-                    "thorough 1..20) x both modes: every construct lies within one output line and the whitespace-collapsed text is "
+                    "the first closer; seeded top-level paragraphs of 2-7 tokens mixing 5 words with 17 atomic constructs (tags whose body holds their own delimiter characters) (incl. multi-backtick code spans holding backticks) x widths (quick {1,3,5,8,12,20,88}, "
+                    "thorough 1..20, 40, 88) x both modes: every construct lies within one output line and the whitespace-collapsed text is "
                     "unchanged; 5 tag pairs x {prose, list, table, ordered list, tables without trailing pipes} x 4 preceding contexts (none, fenced code in a list item / with an "
                     "indented closing fence, code holding tag lines) x widths {88,20,5} x both modes: the tag lines stay alone "
                     "and block content is separated by blank lines; distinct = distinct outputs",
